@@ -75,8 +75,12 @@ pub assume_specification<T: Clone>[ <[T]>::to_vec ](s: &[T]) -> (r: Vec<T>)
 // R11 targets: total functions (they cannot panic); their results are left unspecified except where noted
 #[verifier::external_body]
 pub fn str_starts_with_lit(s: &str, p: &str) -> (r: bool) { s.starts_with(p) }
+// s starts with p (uninterpreted; tied to str::starts_with by the external function below)
+pub uninterp spec fn str_has_prefix(s: Seq<char>, p: Seq<char>) -> bool;
 #[verifier::external_body]
-pub fn str_starts_with_string(s: &str, p: &String) -> (r: bool) { s.starts_with(p.as_str()) }
+pub fn str_starts_with_string(s: &str, p: &String) -> (r: bool)
+    ensures r == str_has_prefix(s@, p@),
+{ s.starts_with(p.as_str()) }
 #[verifier::external_body]
 pub fn str_starts_with_char(s: &str, p: char) -> (r: bool) { s.starts_with(p) }
 #[verifier::external_body]
